@@ -76,6 +76,9 @@ pub struct ReqPlan {
     pub method: String,
     pub ver: Ver,
     pub path_tail: String,
+    /// 0: /r/<id>/<tail>; 1: the root path "/"; 2: no path at all (http://host?query)
+    #[serde(default)]
+    pub path_form: u8,
     pub query: Option<String>,
     pub extra: Option<String>,
     pub body_len: usize,
@@ -142,7 +145,11 @@ pub fn build_client(net: &Network, cfg: &ClientCfg, any_tls: bool) -> ClientSvc 
 }
 
 pub fn request_uri(origin: &str, p: &ReqPlan) -> String {
-    let mut s = format!("{}/r/{}/{}", origin, p.id, p.path_tail);
+    let mut s = match p.path_form {
+        1 => format!("{}/", origin),
+        2 => origin.to_string(),
+        _ => format!("{}/r/{}/{}", origin, p.id, p.path_tail),
+    };
     if let Some(q) = &p.query {
         s.push('?');
         s.push_str(q);
@@ -392,6 +399,7 @@ pub fn gen_request(r: &mut Rng, id: u32, origins: &[OriginCfg], client_alpn_h2: 
         method,
         ver,
         path_tail: r.pick(&TAILS).to_string(),
+        path_form: *r.weighted(&[(10, 0u8), (1, 1), (1, 2)]),
         query: if q.is_empty() { None } else { Some(q.to_string()) },
         extra: if r.bool() { Some(format!("v{}", r.below(1000))) } else { None },
         body_len,
@@ -711,7 +719,9 @@ impl Scenario for E2eSim {
             // path and query as sent
             let expect_pq = {
                 let u: http::Uri = request_uri(&case.origins[p.origin].uri, p).parse().unwrap();
-                u.path_and_query().map(|x| x.as_str().to_string()).unwrap_or_else(|| "/".into())
+                let pq = u.path_and_query().map(|x| x.as_str().to_string()).unwrap_or_default();
+                // an empty path is sent as "/"
+                if pq.is_empty() || pq.starts_with('?') { format!("/{}", pq) } else { pq }
             };
             let seen_pq = s.target.parse::<http::Uri>().ok().and_then(|u| u.path_and_query().map(|x| x.as_str().to_string())).unwrap_or_default();
             if seen_pq != expect_pq {
@@ -920,6 +930,11 @@ pub fn shrink_e2e(case: &E2eCase) -> Vec<E2eCase> {
         if r.read != ReadMode::Full {
             let mut c = case.clone();
             c.requests[i].read = ReadMode::Full;
+            v.push(c);
+        }
+        if r.path_form != 0 {
+            let mut c = case.clone();
+            c.requests[i].path_form = 0;
             v.push(c);
         }
         if r.query.is_some() || !r.path_tail.is_empty() || r.extra.is_some() {
